@@ -197,6 +197,44 @@ func run(cluster bool) {
 func Spread()  { run(false) }
 func Cluster() { run(true) }
 
+// Slots: every slot of every row of the first stored tile (the four levels below the cache)
+// occupied by a shortcut leaf that is then pushed down: k1 and k2 share the 24 cached bits and
+// differ at one of the tile's four levels (every 4-bit pattern for k1), k3 shares 28 or more
+// bits with k1. Every grouping into Add/AddBulk calls gives the canonical root.
+func Slots() {
+	x := byte(rt.Choose("k1-tile-bits", 16))
+	sib := x ^ byte(8>>uint(rt.Choose("k2-differs-at-tile-level", 4)))
+	low := []byte{0x3, 0x9, 0x0}[rt.Choose("k3-low-bits", 3)] // k3 differs from k1 (low nibble 1) at bit 30, 28 or 31
+	k1 := models.PrefixedDigest("k1", bits/8, 0x5a, 0, 0, x<<4|0x1)
+	k2 := models.PrefixedDigest("k2", bits/8, 0x5a, 0, 0, sib<<4)
+	k3 := models.PrefixedDigest("k3", bits/8, 0x5a, 0, 0, x<<4|low)
+	ds := []hashing.Digest{k2, k1, k3}
+	if rt.Choose("k1-first", 2) == 1 {
+		ds = []hashing.Digest{k1, k2, k3}
+	}
+	l := models.NewLog(bits)
+	switch rt.Choose("grouping", 4) {
+	case 0:
+		l.Add(ds[0])
+		l.Add(ds[1])
+		l.Add(ds[2])
+	case 1:
+		l.AddBulk(ds[:2])
+		l.Add(ds[2])
+	case 2:
+		l.AddBulk(ds[:2])
+		l.AddBulk(ds[2:])
+	case 3:
+		l.AddBulk(ds)
+	}
+	h := rt.NewHasher(bits)
+	var kvs []kv
+	for v := range ds {
+		kvs = append(kvs, kv{ds[v], uint64(v)})
+	}
+	rt.Assert(bytes.Equal(l.Snaps[2].HyperDigest, refHyperRoot(h, kvs)), "hyper-digest-canonical-for-every-tile-slot")
+}
+
 // LongRestart: one long run — BULKS bulks of PER events whose digests have pairwise distinct
 // 20-bit prefixes, so that the persisted hyper cache holds more recovery tiles than one read
 // page of the warm-up (1000) — fed to two logs; one of them is restarted (a new Balloon over
